@@ -232,6 +232,20 @@ def handle (iasOfMach : Rat → Int → Rat) (ws : List String) : String :=
     let buf : Array Rat := ((samples.splitOn ",").filterMap (fun t => (t.toInt?).map (fun (i : Int) => (i : Rat) / d))).toArray
     let nf0 : Rat := if nf == "-" then 1000000 else rat! nf
     fmtRes (fun r => fmtMsgs r.1 ++ "|" ++ toString r.2.2) (processBuffer nf0 buf)
+  | ["demodseq", nf, den, bufs] =>
+    -- one reader, several buffers: the noise floor (running minimum) is carried from call to call
+    let d : Rat := ((den.toNat?).getD 1 : Nat)
+    let nf0 : Rat := if nf == "-" then 1000000 else rat! nf
+    let (_, outs) := (bufs.splitOn ";").foldl (fun (acc : Option Rat × List String) samples =>
+      match acc.1 with
+      | none => (none, acc.2 ++ ["X"])
+      | some nfc =>
+        let buf : Array Rat := ((samples.splitOn ",").filterMap (fun t => (t.toInt?).map (fun (i : Int) => (i : Rat) / d))).toArray
+        match processBuffer nfc buf with
+        | .val r => (some r.2.1, acc.2 ++ [fmtMsgs r.1 ++ "|" ++ toString r.2.2])
+        | .rte => (none, acc.2 ++ ["RE"])
+        | .exc => (none, acc.2 ++ ["EXC"])) (some nf0, [])
+    ";".intercalate outs
   | ["trk", ref, calls] => trkOp iasOfMach ref calls
   | "aero" :: fn :: args =>
     let a := args.map floatOfHex
